@@ -1012,15 +1012,17 @@ def run(env, res):
     else:
         quick = tier == 'quick'
         cases = gen_index_cases(tier)
-        cases += gen_string_cases(rng, 30000 if quick else 300000)
-        cases += gen_regex_cases(rng, 16000 if quick else 160000)
+        cases += gen_string_cases(rng, 30000 if quick else 500000)
+        cases += gen_regex_cases(rng, 16000 if quick else 300000)
     hist, outcomes, feats, wins, nmatch, lens = {}, {}, {}, {}, {}, {}
     # real code and oracle: in worker processes (the evaluation of one yaql expression costs 0.5-4 ms)
     nproc = 1 if len(cases) < 50 else max(1, min(8, (os.cpu_count() or 2) - 2))
     chunks = [cases[i:i + 200] for i in range(0, len(cases), 200)]
     if nproc > 1:
         with multiprocessing.get_context('fork').Pool(nproc) as pool:
-            results = [r for chunk in pool.map(_work, chunks) for r in chunk]
+            # watchdog: a change that makes an evaluation hang must not hang the check (-> harness error, exit 2)
+            done = pool.map_async(_work, chunks).get(timeout=600 if tier == 'quick' else 3000)
+            results = [r for chunk in done for r in chunk]
     else:
         results = [r for chunk in chunks for r in _work(chunk)]
     # the model: batches through the driver
